@@ -402,6 +402,21 @@ def zero_spell_hold(rng, spec):
                 col[j] = 0.0
         spec["prices"][t] = col
     scripted_hold(rng, spec)
+    # trades at a price of exactly zero (quantity-based: a free delivery, a par swap): the outlay is zero, the position is not,
+    # and the tree is observed right afterwards, before any explicit update
+    secs = [p for p in all_paths(spec["tree"]) if p[1]]
+    ops = []
+    seen_d = set()
+    for op in spec["ops"]:
+        ops.append(op)
+        if op["op"] == "update" and op["d"] not in seen_d and op["d"] > 0:
+            seen_d.add(op["d"])
+            zero = [p for p in secs if spec["prices"][p[2]["sec"]][op["d"]] == 0.0]
+            if zero and rng.random() < 0.8:
+                p = rng.choice(zero)
+                ops.append({"op": "transact", "path": p[0], "q": float(rng.randint(1, 9)), "update": True, "price": None})
+                ops.append({"op": "observe", "on": "real"})
+    spec["ops"] = ops
 
 
 def custom_price_trades(rng, spec):
